@@ -443,6 +443,15 @@ class Merge(Expr):
         # Blockwise merge
         return BlockwiseMerge(left, right, **self.kwargs)
 
+    @property
+    def _left_key_columns(self):
+        # Columns the merge itself reads; they can't be projected away
+        return _convert_to_list(self.left_on) or []
+
+    @property
+    def _right_key_columns(self):
+        return _convert_to_list(self.right_on) or []
+
     def _simplify_up(self, parent, dependents):
         if isinstance(parent, Filter):
             if not self._filter_passthrough_available(parent, dependents):
@@ -503,13 +512,7 @@ class Merge(Expr):
                 projection = [projection]
 
             left, right = self.left, self.right
-            left_on = _convert_to_list(self.left_on)
-            if left_on is None:
-                left_on = []
-
-            right_on = _convert_to_list(self.right_on)
-            if right_on is None:
-                right_on = []
+            left_on, right_on = self._left_key_columns, self._right_key_columns
 
             left_suffix, right_suffix = self.suffixes[0], self.suffixes[1]
             project_left, project_right = [], []
